@@ -34,7 +34,24 @@ def plan(tier, seed):
         cases.append({"index": i, "seed": [seed, 61, i], "cfg": "quick" if tier == "quick" else "thorough",
                       "cfg_over": over, "force": {"period_utility": i % 2 == 0}, "kind": kind,
                       "agents": 24 if tier == "quick" else 128, "env": {"VERIF_X64": "1"}})
+    # continuous states on grids with integer nodes, initial values supplied as integer-typed
+    # arrays: any later row whose *reported* state is a node is judged like every other one
+    for i in range(12 if tier == "quick" else 150):
+        cases.append({"index": i, "seed": [seed, 62, i], "cfg": "quick" if tier == "quick" else "thorough",
+                      "cfg_over": {"max_T": 3 if tier == "quick" else 5, "n_cS": 1 + (i % 3 == 2)},
+                      "force": {"log_grid": False}, "kind": "int_nodes",
+                      "agents": 24 if tier == "quick" else 128, "env": {"VERIF_X64": "1"}})
     return cases
+
+
+def _integer_nodes(desc, rng):
+    """Move every linear continuous state grid onto integer nodes (step 1 or 2)."""
+    for _, sp in desc["states"]:
+        if sp["kind"] == "lin":
+            a = int(round(sp["start"]))
+            k = 1 if rng.random() < 0.8 else 2
+            sp["start"], sp["stop"] = float(a), float(a + k * (sp["n"] - 1))
+    return desc
 
 
 def run_case(case):
@@ -43,6 +60,9 @@ def run_case(case):
 
     rng = pipeline.case_rng(case, 5)
     desc, realised = pipeline.model_from_case(case)
+    if case.get("kind") == "int_nodes" and "desc" not in case:
+        desc = _integer_nodes(desc, pipeline.case_rng(case, 6))
+        pipeline.LAST["desc"] = desc
     ref = Ref(desc)
     params = desc["params"]
     refsol = ref.solve(params)
@@ -53,6 +73,11 @@ def run_case(case):
     cnt = res["counters"]
     N = case["agents"]
     init = gen.gen_initial_states(rng, ref, N, off_grid=0.0, out_of_range=0.0)
+    if case.get("kind") == "int_nodes":
+        for s_ in ref.states:
+            if not ref.is_disc(s_) and np.all(np.asarray(init[s_]) == np.round(init[s_])):
+                init[s_] = np.asarray(init[s_]).astype(np.int64)
+                cnt["c06_int_typed_state_columns"] = cnt.get("c06_int_typed_state_columns", 0) + 1
     seed = int(rng.integers(0, 2**31 - 1))
     try:
         model = dsl.build_lcm_model(desc)
